@@ -116,6 +116,19 @@ impl C09World {
             }
         };
         log.add_bytes(&rimg.iter().flat_map(|w| w.to_le_bytes()).collect::<Vec<u8>>());
+        let expected_events = 2 * (geom::nondegenerate_edges(&self.a) + geom::nondegenerate_edges(&self.b)) as u64;
+        if reference.completed && reference.events < expected_events {
+            // The sweep ran to completion but popped fewer events than two per input edge: some edges were never
+            // queued, i.e. a pruning step exists that the simulator cannot switch off (it does not go through the
+            // boxes the simulator owns). Same treatment as an unknown exit: only a wrong result is reported.
+            st.inc("observed_pruning_the_simulator_cannot_switch_off");
+            if let Some((x, y)) = geom::model_mismatch(&self.a, &self.b, op, rres) {
+                return Some(Violation {
+                    class: "unswitchable_fast_path_changes_result".into(),
+                    detail: format!("{}: with every known fast path switched off only {} sweep events were processed for {} input edges (edges were pruned before the sweep), and the result {} is wrong at point ({}, {}) by the region model", name, reference.events, expected_events / 2, geom::wkt(rres), x, y),
+                });
+            }
+        }
         if !reference.completed {
             // Both known fast paths are switched off and still the sweep did not run to completion: the code has a
             // fast path the simulator cannot switch off, so the differential has no slow-path reference for this
@@ -249,6 +262,25 @@ impl World for C09World {
         };
         let mut a = fam(&mut r);
         let mut b = fam(&mut r);
+        if !stars && r.chance(1, 12) {
+            // many small parts (thresholds such as "only when there are at least N parts")
+            let many = |r: &mut Rng| {
+                let mut o = geom::gen_rect_operand(r, 2 * g, 4);
+                for _ in 0..3 {
+                    let extra = geom::gen_rect_operand(r, 2 * g, 4);
+                    for p in extra {
+                        let mut cand = o.clone();
+                        cand.push(p);
+                        if geom::valid_rect_parts(&cand) {
+                            o = cand;
+                        }
+                    }
+                }
+                o
+            };
+            if r.chance(1, 2) { a = many(&mut r); } else { b = many(&mut r); }
+            if r.chance(1, 3) { b = geom::gen_rect_operand(&mut r, 2 * g, 1); }
+        }
         // third exact family: valid lattice polygons whose edges never meet the other operand's edges (side by
         // side or nested): no intersection point is ever computed, vertices can be strict extremes
         let lattice = !stars && r.chance(7, 20);
@@ -282,6 +314,7 @@ impl World for C09World {
             }
         }
         let sides = ["left", "right", "below", "above"];
+        let mut far_huge = false;
         let kind = r.below(10);
         let tag;
         match kind {
@@ -295,8 +328,13 @@ impl World for C09World {
             3..=5 => {
                 b = geom::translate(&b, r.range(-(g / 2), g / 2) as f64, r.range(-(g / 2), g / 2) as f64);
                 let side = r.below(4);
-                let gap = *r.pick(&[1.0, 7.0, 50.0]);
+                // ordinary distances, and distances at which the spacing of floats is comparable to the feature size
+                // (the far part is then scaled by 8 so that its own coordinates stay representable)
+                let huge = r.chance(1, 6);
+                let gap = if huge { (2.0f64).powi(*r.pick(&[25, 26, 27, 54, 55])) } else { *r.pick(&[1.0, 7.0, 50.0]) };
                 let far = geom::gen_rect_operand(&mut r, (g / 2).max(4), 1);
+                let far = if huge { geom::scale(&far, 8.0) } else { far };
+                far_huge = huge;
                 let (ba, bb) = (geom::bbox(&a).unwrap(), geom::bbox(&b).unwrap());
                 let all = (ba.0.min(bb.0), ba.1.min(bb.1), ba.2.max(bb.2), ba.3.max(bb.3));
                 let far = place_beyond(&far, all, side, gap, r.range(-(g / 2), g / 2) as f64);
@@ -359,9 +397,13 @@ impl World for C09World {
         let tag = if lattice { format!("lattice non-crossing; {}", tag) } else if crossing { "lattice crossing (region-level comparison)".to_string() } else if octi { format!("octilinear; {}", tag) } else { tag };
         // exact similarity: integer offset, power-of-two scale
         let f32_ = r.chance(1, 4);
-        let (dx, dy) = if f32_ || r.chance(1, 2) { (r.range(-40, 40) as f64, r.range(-40, 40) as f64) } else { (r.range(-(1 << 20), 1 << 20) as f64, r.range(-(1 << 20), 1 << 20) as f64) };
+        let (dx, dy) = if far_huge {
+            (0.0, 0.0)
+        } else if f32_ || r.chance(1, 2) { (r.range(-40, 40) as f64, r.range(-40, 40) as f64) } else { (r.range(-(1 << 20), 1 << 20) as f64, r.range(-(1 << 20), 1 << 20) as f64) };
         // power-of-two scales keep every step exact; occasionally far from 1 (absolute tolerances show only there)
-        let s = if r.chance(1, 5) {
+        let s = if far_huge {
+            1.0
+        } else if r.chance(1, 5) {
             // bounded so that fourth powers of coordinate differences neither underflow nor overflow in F
             (2.0f64).powi(if f32_ { r.range(-24, 20) } else { r.range(-200, 200) } as i32)
         } else {
